@@ -789,6 +789,43 @@ def header_index(prog, rep):
 
 
 # ---------------------------------------------------------------------------
+def premature_verdict(prog, rep):
+    """W11: no verdict on bytes that have not arrived.  A handler that waits for a fixed number n of bytes (it re-registers itself
+    with netbuf_read_wait(R, n, ...) while fewer are buffered) declares the response malformed on the *contents* of its window --
+    a comparison of window bytes, of findeol's or memcmp's answer -- only where `buflen >= n` has been established.  (Otherwise
+    a segmentation that delivers the first of the n bytes alone fails a well-formed response.)"""
+    u = prog.unit(UNIT)
+    n = 0
+    for f in u.funcs:
+        if f.file != UNIT:
+            continue
+        waits = [c for c in f.calls("netbuf_read_wait") if c.arg(1) is not None and norm(c.arg(1))[0] == "c" and c.arg(2) is not None and norm(c.arg(2)) == ("fn", f.name)]
+        peeks = [c for c in f.calls("netbuf_read_peek")]
+        if not waits or not peeks:
+            continue
+        need = max(norm(c.arg(1))[1] for c in waits)
+        bufv = norm(peeks[0].arg(1))[1] if peeks[0].arg(1) is not None and norm(peeks[0].arg(1))[0] == "&" else None
+        lenv = norm(peeks[0].arg(2))[1] if peeks[0].arg(2) is not None and norm(peeks[0].arg(2))[0] == "&" else None
+        if bufv is None or lenv is None:
+            continue
+        n += 1
+        bad = None
+        for c in f.calls():
+            if c.callee not in ("fail", "toobig"):
+                continue
+            gs = [(op, L, R) for cond, truth in f.edge_conds(c) for op, L, R, _, _ in cond_atoms(cond, truth)]
+            content = [g for g in gs if any(t == bufv or (isinstance(t, tuple) and t and t[0] == "call" and t[1] in ("findeol", "memcmp", "memchr")) for x in (g[1], g[2]) for t in subterms(x))]
+            enough = any(op == ">=" and L == lenv and R[0] == "c" and R[1] >= need for op, L, R in gs)
+            if content and not enough:
+                bad = (c, content)
+        rep.check(bad is None, "W11-arrived", "%s: a verdict on the window's contents is given only once the %d bytes it waits for are there" % (f.name, need),
+                  (bad[0].where if bad else f.loc),
+                  ("this failure depends on %s but is reachable with fewer than %d bytes buffered" % ([(op, show(L), show(R)) for op, L, R in bad[1]][:2], need)) if bad else "",
+                  function=f.name, construct="premature")
+    return n
+
+
+# ---------------------------------------------------------------------------
 def header_split(prog, rep):
     """W9: a header line is split the way the grammar says.  Optional whitespace is SP and HTAB, nothing else: the trailing trim
     cuts the line's last character exactly when it is one of the two (and only while the line is not empty), writing the
